@@ -242,7 +242,7 @@ class DiffXReader(object):
 
                     try:
                         metadata = json.loads(content)
-                    except ValueError as e:
+                    except (RecursionError, ValueError) as e:
                         raise DiffXParseError(
                             'JSON metadata could not be parsed: %s' % e,
                             linenum=linenum)
